@@ -85,35 +85,12 @@ type AccSpec struct {
 	Why                  string
 }
 
-// AccExtra is implemented by a driver whose pool has environment events beyond the common
-// alphabet (binding pool: the DOWNSTREAM connection a client is bound to closes). An extra event
-// may close upstream connections; the model then ends the streams on them.
-type AccExtra interface {
-	ExtraEnabled(pool types.ConnectionPool) []string
-	ApplyExtra(pool types.ConnectionPool, ev string) (outcome string)
-}
+// AccExtra: driver-specific environment events (binding pool: dclose), see ExtraEvents in engine.go.
+type AccExtra = ExtraEvents
 
-// step applies one event of the history: a driver-specific extra event or an event of the common alphabet.
+// step applies one event of the history (common alphabet or a driver's extra event).
 func (a *acc) step(ev string) string {
 	w := a.w
-	if x, ok := w.d.(AccExtra); ok {
-		for _, e := range x.ExtraEnabled(w.pool) {
-			if e != ev {
-				continue
-			}
-			var out string
-			w.lease = nil
-			before := len(vfake.Created)
-			if dl := w.guarded(func() { out = x.ApplyExtra(w.pool, ev) }); dl != "" && w.herr == "" {
-				w.deadlock, w.poisoned, w.stuck = dl, true, true
-				return "self-deadlock"
-			}
-			w.syncConns()
-			w.sweepClosed(ev)
-			w.attempts = len(vfake.Created) - before
-			return out
-		}
-	}
 	out := w.step(ev)
 	if w.herr == "" && w.deadlock == "" {
 		// a connection the pool closed as a consequence of the event (binding pool: the close of one
@@ -465,9 +442,6 @@ func runHistoryAcc(d Driver, spec AccSpec, cfg Cfg, hist []string, probe bool) (
 		if !spec.SkipEvents[name] {
 			res.enabled = append(res.enabled, ev)
 		}
-	}
-	if x, ok := d.(AccExtra); ok && !w.poisoned {
-		res.enabled = append(res.enabled, x.ExtraEnabled(w.pool)...)
 	}
 	res.leases = len(w.inflight())
 	res.shutdown = w.shutdown
